@@ -37,7 +37,7 @@ SPEC = {
     "assumptions": ["the shift count parameter is a uint8 (0..255); the theorem covers every natural count",
                     "error identity: errors.Is is modelled by the set of sentinels reachable through %w / Join (Hive/Model/SafeMathErr.lean); the message arguments of the ierrors wrappers are integers, never errors; default build tags (ierrors_no_stacktrace.go)"],
     "manifest": {
-        "text": "Regenerated model: safe_math.go is translated to Lean on every run and the theorems are re-proved against it. For every integer type of positive width and either signedness (all eight Go types), every in-range operand pair and every shift count: SafeAdd/Sub/Mul/Div/LeftShift return exactly the mathematical result when representable and the overflow (or division-by-zero) error otherwise (C19_add/sub/mul/div/shl_exact); likewise SafeMulUint64, SafeMulInt64 and Safe64MulDiv (which never reaches a panicking bits.Div64). The tie additionally runs all 65 536 operand pairs of both 8-bit types, all 256 shift counts and boundary-biased 16/32/64-bit samples through the real functions, the generated definitions and a math/big oracle.",
+        "text": "Regenerated model: safe_math.go is translated to Lean on every run and the theorems are re-proved against it. For every integer type of positive width and either signedness (all eight Go types), every in-range operand pair and every shift count: SafeAdd/Sub/Mul/Div/LeftShift return exactly the mathematical result when representable and the overflow (or division-by-zero) error otherwise (C19_add/sub/mul/div/shl_exact); likewise SafeMulUint64, SafeMulInt64 and Safe64MulDiv (which never reaches a panicking bits.Div64). The two clauses are also stated separately (C19_never_wraps, C19_never_spurious, C19_shl_clauses, C19_mulDiv64_clauses) and for the eight Go types together (C19_statement_holds). The identity of the returned error (errors.Is against the two sentinels) is part of the model: error sites, sentinel definitions and the ierrors wrapper bodies are regenerated and checked by C19_error_identity / C19_sentinels_distinct / C19_ierrors_wrappers. The modelled operator semantics meet their specification (C19_wrap_spec, C19_mul64_spec, C19_div64_spec). The tie additionally runs a systematic boundary grid (7.9 M oracle-only evaluations over 16 instantiated types), all 65 536 operand pairs of both 8-bit types, all 256 shift counts and boundary-biased 16/32/64-bit samples through the real functions, the generated definitions and a math/big oracle.",
         "note": "Trusted: Lean kernel; the go/ast translator and the Go integer semantics in Hive/Base/GoInt.lean (both cross-checked by the differential run, exhaustive for 8-bit types incl. the raw operators); math/big as oracle.",
         "technique": "Lean 4 proofs over a model regenerated from the Go source by a translator + exhaustive/boundary differential run",
     },
